@@ -61,6 +61,12 @@ finding is reported at its root):
    and are never violations; lead triage of former finding D6)
   future-cancelled-on-kill / future-done-on-untrack / future-done-on-region-clear / future-resolved-on-answer
   pending-future-registered    a pending future handed out by request_* is still in the region's _object_futures
+Private state of the managers (orphan table, request-future registry, debounce timer, full-ID index, ...) is never
+read by name in this module: hmc/worldharness.py locates it by known name first and by type/shape otherwise
+(``orphan_map``, ``reachable_futures``), canon() uses a generic member-by-member dump (``generic_state``), and where
+something cannot be located only the clause that needs it is dropped (orphan-held / orphans-exact; everything else is
+stated through lookup_localid / lookup_fullid / all_objects / all_avatars / Object.Parent, ParentID, Children, ChildIDs
+and the futures the harness holds).  Such misses are reported as coverage.introspection_fallbacks.
 Sites name the handler of the event plus the scenario tag (or, for exceptions, the innermost library frame, exception
 type and scenario tag), so findings with different causes do not share a key.
 
@@ -88,7 +94,7 @@ from hippolyzer.lib.base.templates import PCode
 from hippolyzer.lib.client.object_manager import ObjectUpdateType
 from hippolyzer.lib.proxy.vocache import ViewerObjectCacheEntry
 
-from hmc import explore
+from hmc import explore, introspect
 from hmc import worldharness as wh
 from hmc.core import Run
 
@@ -268,6 +274,25 @@ class World:
         self.deferred = False                      # done-callbacks of cancelled futures have not run yet
 
 
+def _pending_futures(w: World, r: int):
+    """[(future, (local, type) or None)] not done, for region r: what the region state can still reach (found
+    generically, see worldharness.reachable_futures) plus the futures handed to the harness, whose key is known."""
+    out = {}
+    for fut, key in wh.reachable_futures(wh.region_state(w.lw.regions[r])):
+        if not fut.done():
+            out[id(fut)] = [fut, key]
+    for x in w.futs:
+        if x["r"] == r and not x["fut"].done():
+            e = out.setdefault(id(x["fut"]), [x["fut"], None])
+            e[1] = (x["l"], x["t"])
+    return [(f, k) for f, k in out.values()]
+
+
+def _registered(w: World, r: int):
+    """ids of the futures the region state of region r can still reach."""
+    return {id(f) for f, _ in wh.reachable_futures(wh.region_state(w.lw.regions[r]))}
+
+
 def _core(ev):
     return tuple(ev[:-1])
 
@@ -289,11 +314,7 @@ class Harness:
 
     # ---- menu ---------------------------------------------------------------------------------------------------
     def _pending(self, w: World) -> int:
-        n = 0
-        for region in w.lw.regions:
-            for futs in region.objects.state._object_futures.values():
-                n += sum(1 for f in futs if not f.done())
-        return n
+        return sum(len(_pending_futures(w, r)) for r in range(self.nreg))
 
     def enabled(self, w: World):
         return [e for e in self._menu(w) if e[0] in self.kinds]
@@ -510,13 +531,15 @@ class Harness:
         link_checks: List[Any] = []
         for r in range(self.nreg):
             region = lw.regions[r]
-            st = region.objects.state
+            st = wh.region_state(region)
             if not m.tracked[r]:
-                pend = sum(1 for futs in st._object_futures.values() for f in futs if not f.done())
-                if st.localid_lookup or st._orphans or st.missing_locals:
+                pend = len(_pending_futures(w, r))
+                held_locals = sorted(o.LocalID for o in region.objects.all_objects)
+                orphans = wh.orphan_map(st)
+                if held_locals or orphans or region.objects.missing_locals:
                     bad("untracked-region-empty", site,
-                        f"region {r} is torn down but holds locals={sorted(st.localid_lookup)} "
-                        f"orphans={dict(st._orphans)} missing={sorted(st.missing_locals)}")
+                        f"region {r} is torn down but holds locals={held_locals} "
+                        f"orphans={dict(orphans or {})} missing={sorted(region.objects.missing_locals)}")
                 if pend:
                     bad("future-done-on-region-clear", "RegionObjectsState.clear",
                         f"{pend} request future(s) still pending in torn-down region {r}")
@@ -540,9 +563,11 @@ class Harness:
                         f"LocalID={o.LocalID} ParentID={o.ParentID} RegionHandle={o.RegionHandle}")
                     continue
                 link_checks.append((r, l, o))
-            extra = sorted(set(st.localid_lookup) - set(range(1, NL + 1)))
-            if extra or len(region.objects) != len([1 for o in m.objs.values() if o["r"] == r]):
-                bad("local-index-vs-model", site, f"region {r}: localid_lookup keys {sorted(st.localid_lookup)}")
+            held_locals = sorted(o.LocalID for o in region.objects.all_objects)
+            extra = sorted(set(held_locals) - set(range(1, NL + 1)))
+            if extra or len(region.objects) != len([1 for o in m.objs.values() if o["r"] == r]) \
+                    or len(held_locals) != len(region.objects):
+                bad("local-index-vs-model", site, f"region {r}: all_objects has local IDs {held_locals}")
         # -- full-ID index against the model, and agreement of the two lookups
         for f in range(NF):
             so = sess.lookup_fullid(wh.FULLS[f])
@@ -579,8 +604,8 @@ class Harness:
         for r in range(self.nreg):
             if not m.tracked[r]:
                 continue
-            st = lw.regions[r].objects.state
-            for parent, lst in sorted(st._orphans.items()):
+            orphans = wh.orphan_map(wh.region_state(lw.regions[r]))
+            for parent, lst in sorted((orphans or {}).items()):
                 for l in lst:
                     f = m.at(r, l)
                     if f is None or m.objs[f]["p"] != parent or m.at(r, parent) is not None or lst.count(l) != 1:
@@ -607,51 +632,46 @@ class Harness:
         w.notes = []
         if "tracked_now" in exp:
             r, l = exp["tracked_now"]
-            if l in lw.regions[r].objects.state.missing_locals:
+            if l in lw.regions[r].objects.missing_locals:
                 w.notes.append("announced-local-still-in-missing_locals")
         if "orphan_parent" in exp:
             r, p = exp["orphan_parent"]
-            if p not in lw.regions[r].objects.state.missing_locals:
+            if p not in lw.regions[r].objects.missing_locals:
                 w.notes.append("unknown-parent-not-in-missing_locals")
-        # -- request futures
-        for x in w.futs:
-            if x["fut"].done():
-                continue
-            reg = lw.regions[x["r"]].objects.state._object_futures.get((x["l"], ObjectUpdateType(x["t"])), [])
-            if not any(f is x["fut"] for f in reg):
-                bad("pending-future-registered", f"RegionObjectsState.register_future[{ev[0]}:{tag}]",
-                    f"a pending {ObjectUpdateType(x['t']).name} future for local {x['l']} of region {x['r']} is no "
-                    f"longer registered (keys={[(k[0], int(k[1])) for k in lw.regions[x['r']].objects.state._object_futures]}): "
-                    f"nothing can resolve or cancel it any more")
+        # -- request futures (found generically: whatever the region state can still reach + what the harness holds)
+        for r in range(self.nreg):
+            reg_ids = None
+            for x in w.futs:
+                if x["r"] != r or x["fut"].done():
+                    continue
+                if reg_ids is None:
+                    reg_ids = _registered(w, r)
+                if id(x["fut"]) not in reg_ids:
+                    bad("pending-future-registered", f"RegionObjectsState.register_future[{ev[0]}:{tag}]",
+                        f"a pending {ObjectUpdateType(x['t']).name} future for local {x['l']} of region {x['r']} is no "
+                        f"longer reachable from the region state: nothing can resolve or cancel it any more")
         for r, l, clause in exp.get("must_done", ()):
-            st = lw.regions[r].objects.state
-            left = [(k[0], ObjectUpdateType(k[1]).name) for k, futs in st._object_futures.items()
-                    if k[0] == l and any(not f.done() for f in futs)]
-            held = [x for x in prior_futs if x["r"] == r and x["l"] == l and not x["fut"].done()]
-            if left or held:
+            left = sorted({(k[0], k[1]) for f, k in _pending_futures(w, r) if k is not None and k[0] == l},
+                          key=repr)
+            if left:
                 fsite = "RegionObjectsState.cancel_futures" + (f"[{ev[0]}:{tag}]")
                 bad(clause, fsite,
-                    f"local {l} of region {r} went away but futures {left or [(x['l'], x['t']) for x in held]} "
-                    f"are still pending; _object_futures keys={[(k[0], int(k[1])) for k in st._object_futures]}")
+                    f"local {l} of region {r} went away but futures "
+                    f"{[(a, ObjectUpdateType(b).name if b else '?') for a, b in left]} are still pending")
         if "answered" in exp:
             r, l, t, f = exp["answered"]
-            st = lw.regions[r].objects.state
-            left = [fut for fut in st._object_futures.get((l, ObjectUpdateType(t)), []) if not fut.done()]
+            reg_ids = _registered(w, r)
+            left = [fut for fut, k in _pending_futures(w, r) if k is not None and k[0] == l and k[1] in (t, None)]
             rsite = f"RegionObjectsState.resolve_futures[{ev[0]}:{tag}]"
-            if left:
+            if any(id(fut) in reg_ids for fut in left):
                 bad("future-resolved-on-answer", rsite,
-                    f"{ObjectUpdateType(t).name} reply for local {l} of region {r} arrived, {len(left)} future(s) "
-                    f"for it still pending")
+                    f"{ObjectUpdateType(t).name} reply for local {l} of region {r} arrived, "
+                    f"{sum(1 for fut in left if id(fut) in reg_ids)} future(s) for it still pending")
             for x in prior_futs:
                 if (x["r"], x["l"], x["t"]) != (r, l, t) or x["fut"].cancelled():
                     continue
                 if not x["fut"].done():
-                    if not left:    # the manager no longer knows the future at all
-                        bad("future-resolved-on-answer", rsite,
-                            f"{ObjectUpdateType(t).name} reply for local {l} of region {r} arrived, a future handed out "
-                            f"for it is still pending and no longer registered (_object_futures keys="
-                            f"{[(k[0], int(k[1])) for k in st._object_futures]})")
-                    continue
+                    continue        # reported above (still registered) or by pending-future-registered
                 res = x["fut"].result()
                 if res is None or res.FullID != wh.FULLS[f] or res.LocalID != l:
                     bad("future-resolved-on-answer", rsite,
@@ -661,7 +681,6 @@ class Harness:
     def _check_links(self, w: World, r: int, l: int, o, bad, site: str):
         m = w.ref
         region = w.lw.regions[r]
-        st = region.objects.state
         try:
             child_ids = list(o.ChildIDs)
             children = [(c.LocalID, c.FullID) for c in o.Children]
@@ -695,36 +714,30 @@ class Harness:
             if par_id is not None:
                 bad("parent-link", site, f"region {r} local {l}: parent {p} is not tracked but Parent={par_id}")
             if p:
-                held = st._orphans.get(p, [])
-                if list(held).count(l) != 1:
-                    bad("orphan-held", site,
-                        f"region {r} local {l} names unknown parent {p} but _orphans[{p}]={list(held)}")
+                orphans = wh.orphan_map(wh.region_state(region))
+                if orphans is None:
+                    # the orphan table cannot be located in this tree: the clause is dropped (counted), adoption is
+                    # still checked through Parent / Children when the parent appears
+                    introspect.note_fallback("orphan-held clause dropped")
+                else:
+                    held = orphans.get(p, [])
+                    if list(held).count(l) != 1:
+                        bad("orphan-held", site,
+                            f"region {r} local {l} names unknown parent {p} but the orphan table has {p}: {list(held)}")
 
     # ---- canonical state ----------------------------------------------------------------------------------------
     def canon(self, w: World):
+        """Reference model + implementation state.  The implementation part is a generic dump (no field names): the
+        region object managers and the world object manager member by member (worldharness.generic_state), plus every
+        public field of the tracked Objects."""
         lw = w.lw
+        now = lw.loop.time()
         parts: List[Any] = [w.ref.canon()]
         for r, region in enumerate(lw.regions):
-            st = region.objects.state
-            objs = []
-            for l, o in sorted(st.localid_lookup.items()):
-                objs.append((l, _obj_sig(o)))
-            parts.append((
-                tuple(objs),
-                tuple(sorted((k, tuple(v)) for k, v in st._orphans.items())),
-                tuple(sorted(st.missing_locals)),
-                tuple((k[0], int(k[1]), sum(1 for f in futs if not f.done())) for k, futs in st._object_futures.items()),
-                tuple(sorted(region.objects.queued_cache_misses)),
-                region.objects._cache_miss_timer is not None,
-                bool(region.circuit and region.circuit.is_alive),
-                region.objects.cache_loaded,
-            ))
-        so = lw.session.objects
-        parts.append(tuple(sorted((wh.FULLS.index(k) if k in wh.FULLS else -1, o.LocalID, o.RegionHandle)
-                                  for k, o in so._fullid_lookup.items())))
-        parts.append(tuple(sorted(so._region_managers)))
-        parts.append(tuple(sorted(str(k) for k in so._avatar_objects)))
-        parts.append(tuple(sorted((str(k), a.RegionHandle, a.Object is not None) for k, a in so._avatars.items())))
+            objs = tuple((o.LocalID, _obj_sig(o)) for o in sorted(region.objects.all_objects, key=lambda o: o.LocalID))
+            parts.append((objs, wh.generic_state(region.objects, now),
+                          bool(region.circuit and region.circuit.is_alive)))
+        parts.append(wh.generic_state(lw.session.objects, now))
         parts.append(tuple(sorted((x["r"], x["l"], x["t"]) for x in w.futs if not x["fut"].done())))
         parts.append(lw.loop.pending_timers())
         parts.append((len(lw.loop._ready), w.deferred))
@@ -739,9 +752,9 @@ class Harness:
 
     def observe(self, w: World):
         m = w.ref
-        return (m.canon()[:3], tuple(tuple(sorted((k, tuple(v)) for k, v in reg.objects.state._orphans.items()))
+        return (m.canon()[:3], tuple(tuple(sorted((k, tuple(v)) for k, v in (wh.orphan_map(wh.region_state(reg)) or {}).items()))
                                      for reg in w.lw.regions),
-                tuple(tuple(sorted(reg.objects.state.missing_locals)) for reg in w.lw.regions),
+                tuple(tuple(sorted(reg.objects.missing_locals)) for reg in w.lw.regions),
                 tuple(sorted((x["r"], x["l"], x["t"]) for x in w.futs)), bool(w.violations), tuple(w.notes))
 
 
@@ -881,6 +894,14 @@ def run(run: Run):
                 v["witness"]["profile"] = profile
                 v["witness"]["locals"] = nl
     run.coverage_extra["observations"] = _observations()
+    # private state that had to be located by type/shape instead of by its known name (workers are forked, so this is
+    # measured on a fixed probe history in this process; misses depend on the tree, not on the history)
+    _retagged_replay(Harness(1, "full"), [("A", 0, 2, 1, 2), ("RQ", 0, 1), ("C", 0, 3, 1), ("TICK",), ("K", 0, 2),
+                                           ("A", 0, 0, 2, 0), ("TD", 0)])
+    fb = dict(sorted(introspect.FALLBACKS.items()))
+    run.count("introspection_fallbacks", len(fb))
+    run.coverage_extra["introspection_fallbacks"] = {"attributes_located_by_shape_or_dropped": sorted(fb),
+                                                     "lookups_in_probe": fb}
     run.coverage_extra["bounds"] = [{"profile": _p, "regions": a, "locals": _n, "depth": b, "deviation_bound": c} for _p, a, _n, b, c in bounds]
     for v in run.violations:
         wit = v["witness"]
